@@ -222,7 +222,8 @@ def run_supp(res: Result, seed: int) -> None:
     # the external asker may put a second question (another type this host answers for) with its own known answers - all of
     # them records this host holds too - into the same packet, as a browser of several types does
     ext_multi = authoritative and rng.random() < 0.35
-    desc = {"family": "supp", "pair": pair, "gap": gap, "n_cached": n_cached, "forced": forced, "ext_qu": ext_qu, "ext_known": ext_known, "authoritative": authoritative,
+    n_old = rng.choice([0, 0, 1, 2])
+    desc = {"family": "supp", "n_old": n_old, "pair": pair, "gap": gap, "n_cached": n_cached, "forced": forced, "ext_qu": ext_qu, "ext_known": ext_known, "authoritative": authoritative,
             "ext_multi": ext_multi}
 
     def viol(monitor: str, kind: str, detail: str, **sig: Any) -> None:
@@ -240,6 +241,14 @@ def run_supp(res: Result, seed: int) -> None:
             host = sim.net.add_host("H", "10.0.0.1")
             azc = await sim.start_host(host)
             zc = azc.zeroconf
+            # pointers this instance holds only as stale copies (past half of their TTL): it does not list them as known
+            # answers, so another asker's list that names them contains something this instance "does not know itself"
+            for j in range(n_old):
+                ident = ("PTR", T, ("old%d.%s" % (j, T),))
+                sim.net.inject_now(host, R.build_response([(ident, 4500, False)], id_=40 + j), ("10.0.0.9", 5353))
+                cached.append(Cached(ident, sim.now_ms(), 4500))
+            if n_old:
+                await sim.sleep_ms(2251_000 + rng.choice([0, 500_000]))
             if authoritative:
                 s = Svc(T, "mine." + T, "hostm.local.", 80, b"", [b"\x0a\x00\x00\x01"], [], 120, 4500)
                 t = await zc.async_register_service(R.make_info(s), cooperating_responders=True)
